@@ -211,13 +211,57 @@ pub fn run(ctx: &Ctx) -> Report {
         ops.extend([Op::Sha1(0), Op::Sha256(0), Op::Fp]);
         cases2.push(Prog { class: 0, method: 1, tid: tid0, ops }.to_case("build"));
     }
+    // (6) values that look like the header of a sealing attribute (or of a message) placed so that
+    //     they end the message, start it, or sit in the middle; unsealed and under every sealing
+    {
+        let mut look: Vec<Op> = Vec::new();
+        for (t, l) in [(wire::FP, 4u16), (wire::MI, 20), (wire::MI256, 32), (wire::MI256, 16)] {
+            let mut v = t.to_be_bytes().to_vec();
+            v.extend_from_slice(&l.to_be_bytes());
+            v.extend(std::iter::repeat(0x5Au8).take(l as usize));
+            look.push(Op::Raw(0xFF10, v.clone()));
+            // header of the lookalike exactly eight bytes before the end
+            let mut w = vec![0x11u8; 4];
+            w.extend_from_slice(&t.to_be_bytes());
+            w.extend_from_slice(&l.to_be_bytes());
+            w.extend_from_slice(&[1, 2, 3, 4]);
+            look.push(Op::Raw(0xFF11, w));
+            if l == 4 {
+                look.push(Op::Typed(Kind::IceControlling, vec![0x80, 0x28, 0x00, 0x04, 9, 9, 9, 9]));
+                look.push(Op::Typed(Kind::IceControlled, vec![0x80, 0x28, 0x00, 0x04, 0, 0, 0, 0]));
+                look.push(Op::Typed(Kind::UnknownAttributes, vec![0x00, 0x06, 0x80, 0x28, 0x00, 0x04, 0x12, 0x34]));
+                look.push(Op::Typed(Kind::UnknownAttributes, vec![0x80, 0x28, 0x00, 0x04, 0x12, 0x34]));
+                look.push(Op::Typed(Kind::Userhash, { let mut h = vec![7u8; 24]; h.extend_from_slice(&[0x80, 0x28, 0x00, 0x04, 1, 1, 1, 1]); h }));
+            }
+        }
+        // a whole STUN header as a value
+        look.push(Op::Raw(0xFF12, wire::encode_header(0, 1, 7, 0)));
+        for lk in &look {
+            for pos in 0..3 {
+                let mut body: Vec<Op> = vec![alpha[6].clone(), alpha[0].clone()];
+                let at = pos.min(body.len());
+                if body.iter().any(|o| o.type_code() == lk.type_code()) {
+                    continue;
+                }
+                body.insert(if pos == 2 { body.len() } else { at }, lk.clone());
+                for c in [0u8, 1] {
+                    for sl in sealings(c) {
+                        let mut ops = body.clone();
+                        ops.extend(sl);
+                        cases2.push(Prog { class: 1, method: 1, tid: tid0, ops }.to_case("build"));
+                    }
+                }
+            }
+            cases2.push(Prog { class: 0, method: 1, tid: tid0, ops: vec![lk.clone()] }.to_case("build"));
+        }
+    }
     let acc2 = crate::props::sweep(cases2.into_par_iter(), judge);
     let mut acc = acc1.merge(acc2);
     acc.nontrivial = *acc.outcomes.get("built and read back").unwrap_or(&0) + acc.violations.values().map(|(_, n)| *n).sum::<u64>();
     Report {
         acc,
         exhaustive: true,
-        rule: "all lists of pairwise distinct attributes up to the depth over a 42-entry alphabet (16 non-sealing built-in types with 2-3 values each + raw types) x 8 sealing combinations x {short-term, long-term}; 100 header variants x 3 lists x 8 sealings; all 4096 methods x 4 classes; one-attribute messages of every length 0..=763 (USERNAME 0..=513); every encode-side value of every type; every 16-bit type code as a raw attribute (alone; behind SOFTWARE and fully sealed); distinct_nontrivial = programs the builder ran to completion".into(),
+        rule: "all lists of pairwise distinct attributes up to the depth over a 42-entry alphabet (16 non-sealing built-in types with 2-3 values each + raw types) x 8 sealing combinations x {short-term, long-term}; 100 header variants x 3 lists x 8 sealings; all 4096 methods x 4 classes; one-attribute messages of every length 0..=763 (USERNAME 0..=513); every encode-side value of every type; every 16-bit type code as a raw attribute (alone; behind SOFTWARE and fully sealed); values that look like FINGERPRINT / MI / MI-SHA256 attribute headers or a STUN header, first / middle / last, under every sealing; distinct_nontrivial = programs the builder ran to completion".into(),
         bounds: json!({"attribute_lists": n_lists, "list_depth": depth, "alphabet": alpha.len(), "sealings": 8}),
         assumptions: vec!["messages larger than the 16-bit length field are outside the statement".into()],
         ..Default::default()
